@@ -1,0 +1,57 @@
+//! Verification hooks (feature `verif`, off by default): re-exports of crate internals and thin
+//! wrappers used by the external /verif harness. Nothing here changes the behaviour of the crate.
+use std::future::Future;
+use std::net::SocketAddr;
+
+use datacake_node::Nodes;
+
+pub type DocVec<T> = smallvec::SmallVec<[T; 4]>;
+pub use crate::keyspace::{
+    Del,
+    Diff,
+    KeyspaceActor,
+    KeyspaceGroup,
+    LastUpdated,
+    MultiDel,
+    MultiSet,
+    PurgeDeletes,
+    Serialize,
+    Set,
+    CONSISTENCY_SOURCE_ID,
+    NUM_SOURCES,
+    READ_REPAIR_SOURCE_ID,
+};
+pub use crate::replication::verif_hooks::{
+    repair_peer,
+    repair_peer_concurrent,
+    ExchangeReport,
+    Tracker,
+};
+pub use crate::rpc::services::consistency_impl::{
+    BatchPayload,
+    ConsistencyService,
+    Context,
+    MultiPutPayload,
+    MultiRemovePayload,
+    PutPayload,
+    RemovePayload,
+};
+pub use crate::rpc::services::replication_impl::{
+    FetchDocs,
+    GetState,
+    KeyspaceOrSwotSet,
+    PollKeyspace,
+    ReplicationService,
+};
+pub use crate::rpc::{ConsistencyClient, ReplicationClient};
+use crate::{Storage, StoreError};
+
+/// `handle_consistency_distribution`: waits for every selected replica and counts the acks.
+pub async fn distribute<S, CB, F>(nodes: Nodes, factory: CB) -> Result<(), StoreError<S::Error>>
+where
+    S: Storage,
+    CB: FnMut(SocketAddr) -> F,
+    F: Future<Output = Result<(), StoreError<S::Error>>>,
+{
+    crate::handle_consistency_distribution::<S, CB, F>(nodes, factory).await
+}
